@@ -31,12 +31,26 @@ var table = [][]string{
 		"NewNode 9", "SetAny 0 0", "AnyStr 0", "SetAny 0 1", "AnyStr 0", "SetAny 0 2", "AnyStr 0", "SetAny 0 3", "AnyStr 0", "SetAny 0 4", "AnyStr 0",
 		"SetAny 0 5", "SetV 0 10", "AnyStr 0", "SetAny 0 9", "AnyStr 0", "Render 0",
 	},
+	{ // an ESCAPED object (2 refs) gains a reference from a NEW object attached at finalize
+		// (fresh Kids backing array), the older references go away in later txs, then it is read
+		"NewNode 1", "NewNode 2", "NewNode 3", "Link 1 0", "GetV 0", "AddKid 2 0", "Unlink 1", "Drop 0", "KidSum 2", "Render 0",
+		"NewNode 4", "Link 1 3", "Link 2 3", "AddKid 1 3", "Unlink 1", "Unlink 2", "Drop 3", "KidSum 1", "Render 0",
+	},
+	{ // the same through a closure capture and through an interface slot
+		"NewNode 7", "NewNode 8", "Link 1 0", "RegPut a 0", "MkAdder 0", "Unlink 1", "RegDel a", "Drop 0", "CallFn 0 1", "CallFn 0 1", "Render 0",
+		"NewNode 9", "NewNode 10", "Link 3 2", "AddKid 3 2", "AddKid 3 2", "Unlink 3", "Drop 2", "KidSum 3", "Render 0",
+	},
+	{ // slices whose elements are arrays: clone / growth must copy the element arrays
+		"MkPairs 2", "GetPairs 0", "ClonePairs 0", "SetPair 1 0 0 99", "GetPairs 0", "GetPairs 1", "SetPair 0 1 1 77", "GetPairs 1",
+		"DupPairs 0", "AppPair 0 5 6", "SetPair 0 0 1 55", "GetPairs 2", "GetPairs 0", "SetPair 2 1 0 44", "GetPairs 0", "GetPairs 2",
+		"ClonePairs 2", "AppPair 4 1 2", "SetPair 4 2 0 3", "GetPairs 2", "GetPairs 4", "Render 0",
+	},
 	{ // registry map of nodes
 		"NewNode 1", "NewNode 2", "RegPut x 0", "RegPut y 1", "RegPut z 0", "RegGet z", "SetV 0 5", "RegGet x", "RegDel x", "RegGet x", "RegGet z", "RegDel q", "Render 0",
 	},
 }
 
-type shadow struct{ nodes, slices, iptrs, fns, shapes int }
+type shadow struct{ nodes, slices, iptrs, fns, shapes, pairs int }
 
 func pickH(r *kit.Rand, n int) int {
 	if n == 0 || r.Chance(4) {
@@ -49,7 +63,23 @@ var keys = []string{"a", "b", "c", "zz"}
 
 func randOp(r *kit.Rand, sh *shadow) string {
 	v := func() int { return r.Range(-9, 30) }
-	switch r.Intn(40) {
+	switch r.Intn(46) {
+	case 40:
+		sh.pairs++
+		return fmt.Sprintf("MkPairs %d", r.Range(0, 4))
+	case 41:
+		sh.pairs++
+		return fmt.Sprintf("ClonePairs %d", pickH(r, sh.pairs-1))
+	case 42:
+		if r.Bool() {
+			sh.pairs++
+			return fmt.Sprintf("DupPairs %d", pickH(r, sh.pairs-1))
+		}
+		return fmt.Sprintf("GetPairs %d", pickH(r, sh.pairs))
+	case 43:
+		return fmt.Sprintf("AppPair %d %d %d", pickH(r, sh.pairs), v(), v())
+	case 44, 45:
+		return fmt.Sprintf("SetPair %d %d %d %d", pickH(r, sh.pairs), r.Range(0, 3), r.Range(0, 1), v())
 	case 0, 1, 2:
 		sh.nodes++
 		return fmt.Sprintf("NewNode %d", v())
